@@ -1352,6 +1352,16 @@ func (x *c08SX) model(cal kit.Callee, cc *ssa.CallCommon, args []c08vVal) c08vVa
 			if ok1 && ok2 {
 				return c08vBool(strings.EqualFold(a, b))
 			}
+		case "CutPrefix":
+			if ok1 && ok2 {
+				r, f := strings.CutPrefix(a, b)
+				return c08vTuple{c08vAtom(r), c08vBool(f)}
+			}
+		case "CutSuffix":
+			if ok1 && ok2 {
+				r, f := strings.CutSuffix(a, b)
+				return c08vTuple{c08vAtom(r), c08vBool(f)}
+			}
 		case "Cut":
 			if ok1 && ok2 {
 				bf, af, f := strings.Cut(a, b)
